@@ -1313,6 +1313,11 @@ func (x *cluster) trackNodeLeftEvent(ev events.NodeLeftEvent) {
 	x.eventsLock.Lock()
 	defer x.eventsLock.Unlock()
 
+	// ignore self: the local node never reports its own departure
+	if x.node.PeersAddress() == ev.NodeLeft {
+		return
+	}
+
 	x.nodeJoinedEventsFilter.Remove(ev.NodeLeft)
 	if x.nodeLeftEventsFilter.Contains(ev.NodeLeft) {
 		return
